@@ -25,11 +25,18 @@ class Digits(str):
         return "<digits>"
 
 
+_SERIAL = [0]
+
+
 class TokLine(str):
-    """A line of kind `kind` (e.g. 'N') whose capture groups are `groups` (Digits / str / None)."""
+    """A line of kind `kind` (e.g. 'N') whose capture groups are `groups` (Digits / str / None).
+
+    Every token line has its own text (a serial number), as distinct lines of a file have: code that
+    keys anything by the line text then behaves as it would on real, distinct lines."""
 
     def __new__(cls, kind, groups, text=None):
-        self = str.__new__(cls, text if text is not None else "<%s line>" % kind)
+        _SERIAL[0] += 1
+        self = str.__new__(cls, text if text is not None else "<%s line #%d>" % (kind, _SERIAL[0]))
         self.kind = kind
         self.groups_ = tuple(groups)
         return self
